@@ -16,10 +16,10 @@ Proved here:
 * the closed form of the shipped nvcc architecture pattern on EVERY value (`nvcc_findall_closed_form`), its values
   on option values of the documented shapes, and that the regenerated built-in table still carries that rule.
 
-Not proved (visible below as `def … : Prop`): completeness / priority-exactness of the matcher for arbitrary
-expressions (`MatcherComplete`: "leftmost, first alternative, greedy" is tied to CPython by differential
-testing only, and proved only for the literal and the shipped pattern), and correctness of the pattern parser
-(`parse` is tied by differential testing; for the shipped pattern `nvcc_pattern_parses` is a kernel evaluation).
+Not proved HERE: completeness / priority-exactness of the matcher for arbitrary expressions (`MatcherComplete` below)
+— proved in `Props/C12RegexComplete.lean` (`matcher_complete`, `matcher_priority_exact_partial`, `findallStr_eq_spec`);
+the pattern parser is tied to CPython by differential testing (`parse_literal`, `parse_roundtrip_partial`,
+`parse_in_fragment` there; for the shipped pattern `nvcc_pattern_parses` is a kernel evaluation).
 -/
 namespace CbiVerif.C12
 open CbiVerif.Regex CbiVerif.Compilers CbiVerif.Gen.Compilers
@@ -56,8 +56,8 @@ theorem findall_hits_ordered (r : Re) (s : List Char) :
 example : (hits (.plus (.cls false [.digit])) "a12b345".toList).map (fun h => (h.start, String.ofList h.text)) =
     [(1, "12"), (4, "345")] := by decide
 
-/-- NOT proved in general: the matcher finds a match whenever the language has one at that position (and, beyond
-    that, the one CPython's priorities select).  Proved instances: `findall_literal`, `nvcc_findall_closed_form`. -/
+/-- the matcher finds a match whenever the language has one at that position.  Proved for every expression in
+    `Props/C12RegexComplete.lean` (`matcher_complete`); instances proved here: `findall_literal`, `nvcc_findall_closed_form`. -/
 def MatcherComplete : Prop :=
   ∀ (r : Re) (s s' : List Char), Match r s s' → (matchAt r false s).isSome = true
 
